@@ -69,6 +69,9 @@ func (o *origin) handle(w http.ResponseWriter, r *http.Request) {
 		a.ReadErr = err.Error()
 	}
 	first := r.URL.Query().Get("first") // scripted answer to the first attempt of this exchange: 503 | 401
+	if h, _ := strconv.Atoi(r.URL.Query().Get("hops")); h > 0 && first == "401" {
+		first = "" // the challenge is issued by the redirect target (a digest re-send is not redirected again)
+	}
 	o.mu.Lock()
 	attempt := 1
 	if first != "" {
@@ -87,8 +90,13 @@ func (o *origin) handle(w http.ResponseWriter, r *http.Request) {
 		switch first {
 		case "401":
 			w.Header().Set("WWW-Authenticate", `Digest realm="c17", nonce="dcd98b7102dd2f0e8b11d0f600bfb0c093", qop="auth", algorithm=MD5, opaque="5ccc069c403ebaf9f0171e9517f40e41"`)
+			cb := []byte("challenge")
+			if n, err := strconv.Atoi(r.URL.Query().Get("fb")); err == nil {
+				cb = bytes.Repeat([]byte("C"), n) // the 401 page
+			}
+			w.Header().Set("Content-Length", strconv.Itoa(len(cb)))
 			w.WriteHeader(401)
-			w.Write([]byte("challenge"))
+			w.Write(cb)
 		default:
 			fb := []byte("try again")
 			if n, err := strconv.Atoi(r.URL.Query().Get("fb")); err == nil {
